@@ -261,6 +261,13 @@ func (o *Operator) HandleEvent(ctx context.Context, senderID string, req *worker
 
 	// Block the sender to align checkpoint barriers if needed
 	o.mu.RLock()
+	if !o.sourceRunners.includes(senderID) {
+		// A source runner of a previous deployment: its events are not part of
+		// this deployment's streams and must not reach state or checkpoints.
+		o.mu.RUnlock()
+		err := fmt.Errorf("sender %s is not a source runner of this deployment", senderID)
+		return connect.NewError(connect.CodeFailedPrecondition, err)
+	}
 	waitOnAlignment := o.checkpoint.alignSender(senderID)
 	o.mu.RUnlock()
 	if err := waitOnAlignment(); err != nil {
